@@ -2,6 +2,7 @@
     Property theorems only. *)
 From Coq Require Import ZArith List Bool.
 From PV Require Import Model.Base Model.Sched Model.Seq Model.Api.
+From PV Require Proofs.SourceTie.
 From PV Require Import Proofs.SchedInv Proofs.SeqInv Proofs.RetargetWitness Proofs.Atomic Proofs.LogReplay Proofs.AlignWitness.
 Import ListNotations.
 Open Scope Z_scope.
@@ -88,3 +89,10 @@ Theorem C09_failed_call_leaves_state_refuted_declare :
     nslots (fst (step v (run v pre) o)) <> nslots (run v pre).
 Proof. exact failed_call_leaves_state_refuted_declare. Qed.
 Print Assumptions C09_failed_call_leaves_state_refuted_declare.
+
+(** The whole translation tie of the scheduler (see Proofs/SourceTie.v): every
+    scheduler function of the model this property's theorems rest on is equal to
+    the function regenerated from the current source. *)
+Theorem C09_source_scheduler : SourceTie.scheduler_tied.
+Proof. exact SourceTie.scheduler_source_tie. Qed.
+Print Assumptions C09_source_scheduler.
